@@ -736,6 +736,44 @@ pub fn gen_anchor_giveback(rng: &mut Rng) -> Node {
     Node::Cat(v).normalize()
 }
 
+/// loops whose body holds a group that an iteration may or may not use, with a follower that
+/// forces iterations to be given back or re-done: the capture must be the one of the last
+/// iteration that is part of the final match (or none)
+pub fn gen_capture_loop_shape(rng: &mut Rng) -> Node {
+    let ch = |rng: &mut Rng| Node::Char(*rng.pick(&['a', 'b', 'x']));
+    let cls = |rng: &mut Rng| Node::Class(ClassExpr { neg: false, items: vec![ClassItem::Ch(*rng.pick(&['a', 'y'])), ClassItem::Ch('b')], sub: None });
+    let opt = |n: Node| Node::Repeat { body: Box::new(n), min: 0, max: Some(1), greedy: true, spell: 0 };
+    let grp = |n: Node| Node::Group(Box::new(n));
+    let (qmin, qmax) = *rng.pick(&[(1, None), (0, None), (1, Some(3)), (2, None)]);
+    let lp = |body: Node| Node::Repeat { body: Box::new(Node::NcGroup(Box::new(body))), min: qmin, max: qmax, greedy: true, spell: 0 };
+    match rng.below(5) {
+        // (a){2}|ab , x(?:(a){3}|ab)y : an earlier alternative that is a counted group matches some
+        // repetitions, fails as a whole, and a later alternative wins - the group took no part
+        4 => {
+            let c = ch(rng);
+            let n = 2 + rng.below(2);
+            let counted = Node::Repeat { body: Box::new(grp(if rng.chance(1, 3) { Node::Repeat { body: Box::new(c.clone()), min: 1, max: None, greedy: true, spell: 0 } } else { c.clone() })), min: n, max: Some(n), greedy: true, spell: 0 };
+            let alt = Node::Alt(vec![counted, Node::Cat(vec![c, ch(rng)])]);
+            if rng.chance(1, 2) {
+                alt
+            } else {
+                Node::Cat(vec![ch(rng), Node::NcGroup(Box::new(alt)), ch(rng)])
+            }
+        }
+        // (?:[yb]x?(b)?)+z : the optional group at the end of the body takes text and gives it back
+        0 => Node::Cat(vec![lp(Node::Cat(vec![cls(rng), opt(ch(rng)), opt(grp(ch(rng)))])), ch(rng)]),
+        // the same with the whole body captured as well
+        1 => Node::Cat(vec![Node::Repeat { body: Box::new(grp(Node::Cat(vec![cls(rng), opt(ch(rng)), opt(grp(ch(rng)))]))), min: qmin, max: qmax, greedy: true, spell: 0 }, ch(rng)]),
+        // (?:(?:x|(a+))*b)*ac : the group sits in an alternative of an inner loop
+        2 => {
+            let inner = Node::Repeat { body: Box::new(Node::NcGroup(Box::new(Node::Alt(vec![ch(rng), grp(Node::Repeat { body: Box::new(ch(rng)), min: 1, max: None, greedy: true, spell: 0 })])))), min: rng.below(2), max: None, greedy: rng.chance(3, 4), spell: 0 };
+            Node::Cat(vec![lp(Node::Cat(vec![inner, ch(rng)])), ch(rng), ch(rng)])
+        }
+        // (a|b|abx)*c : alternatives of different lengths directly under the loop
+        _ => Node::Cat(vec![Node::Repeat { body: Box::new(grp(Node::Alt(vec![ch(rng), ch(rng), Node::Cat(vec![ch(rng), ch(rng), ch(rng)])]))), min: qmin, max: qmax, greedy: rng.chance(3, 4), spell: 0 }, ch(rng)]),
+    }
+}
+
 // ---------- hostile strings ----------
 pub const HOSTILE_ALPHA: &[char] = &[
     '(', ')', '[', ']', '{', '}', '\\', '?', '*', '+', '|', '.', '^', '$', '-', ',', ':', 'a', 'b', '1', '0', '9', 'p', 'P', 'I', 's', 'L', 'u', 'd', 'w', 'n', ' ', '\n', '\u{0}', '\u{300}', '\u{FFFF}', '\u{10400}', '\u{10FFFF}',
